@@ -119,21 +119,48 @@ def range_get_rules(ctx, prog, rid):
                 x.k == 'DeclRefExpr' and x.declid == itdecl for x in s.walk())
         stops = q.branches(g, lambda a: a.strip(casts=True).k == 'BinaryOperator' and a.strip(casts=True).op in ('>', '>=', '<', '<=') and
                            any(key_of_iter(x) for x in a.strip(casts=True).children))
+        # the record callback sites (a pair with a non-zero key), needed to say what "stops" means for any loop form
+        rec_cbs = []
+        for cb in cbs:
+            a0 = cb.args[0].strip(casts=True)
+            for (k_, n_) in (q.origins(g, a0) if a0.k == 'DeclRefExpr' else [('expr', a0)]):
+                if n_ is not None and n_.strip(casts=True).is_call and len(n_.strip(casts=True).args) == 2 and n_.strip(casts=True).args[0].strip(casts=True).value != 0:
+                    rec_cbs.append(cb)
         okstop = False
         for (b, a, pol) in stops:
             s = a.strip(casts=True)
             l, r = s.children
-            if key_of_iter(l) and s.op == '>' and r.strip(casts=True).k == 'DeclRefExpr':
-                fin = r.strip(casts=True)
-                init = [val for (dn, kind, val) in q.local_defs(g, fin.declid) if kind == 'init' and val is not None]
-                if len(init) == 1 and init[0].strip(casts=True).k == 'ConditionalOperator':
-                    co = init[0].strip(casts=True)
-                    c_, t_, e_ = co.child('cond').strip(casts=True), co.child('then'), co.child('else')
-                    if c_.k == 'BinaryOperator' and c_.op == '==' and q.refers_to_decl(c_.children[0], pto) and c_.children[1].strip(casts=True).value == 0 \
-                            and q.refers_to_decl(e_, pto) and t_.strip(casts=True).k == 'DeclRefExpr':
+            op = s.op
+            if key_of_iter(r) and not key_of_iter(l):
+                l, r, op = r, l, {'<': '>', '>': '<', '<=': '>=', '>=': '<='}[op]
+            if not key_of_iter(l) or r.strip(casts=True).k != 'DeclRefExpr' or op not in ('>', '<='):
+                continue            # `>=` / `<` would stop one record early: not the inclusive bound
+            fin = r.strip(casts=True)
+            init = [val for (dn, kind, val) in q.local_defs(g, fin.declid) if kind == 'init' and val is not None]
+            if len(init) == 1 and init[0].strip(casts=True).k == 'ConditionalOperator':
+                co = init[0].strip(casts=True)
+                c_, t_, e_ = co.child('cond').strip(casts=True), co.child('then'), co.child('else')
+                if c_.k == 'BinaryOperator' and c_.op == '==' and q.refers_to_decl(c_.children[0], pto) and c_.children[1].strip(casts=True).value == 0 \
+                        and q.refers_to_decl(e_, pto) and t_.strip(casts=True).k == 'DeclRefExpr':
+                    # the edge on which key > finish holds never reaches a record callback (whether it is a break, or the exit of a for/while condition)
+                    exceed = q.atom_edge(gc, (b, a, pol), op == '>')
+
+                    def not_within(v, w, lab, _a=a, _op=op):
+                        if lab is None or not isinstance(lab[1], bool):
+                            return True
+                        cn_ = gc.cond_node(lab[0])
+                        if cn_ is None:
+                            return True
+                        a2, pol2 = q.polar(cn_, lab[1])
+                        if a2 != _a:
+                            return True
+                        exceeds = pol2 if _op == '>' else (not pol2)
+                        return exceeds          # the edge on which key <= finish is removed
+                    # ... and every record callback, the first one included, is reached only through the edge on which key <= finish holds
+                    first_untested = finds and q.reachable_any(gc, [gc.vertex_of(finds[0])], q.verts(gc, rec_cbs), edge_ok=not_within) is not None
+                    if rec_cbs and q.reachable_any(gc, exceed, q.verts(gc, rec_cbs)) is None and not first_untested:
                         okstop = True
-                        # the break edge leaves the loop: no callback with a record afterwards
-        ctx.check(okstop, rid, cls + '::get#stop', g.loc, 'iteration stops when key > (to == 0 ? last : to)')
+        ctx.check(okstop, rid, cls + '::get#stop', g.loc, 'a record is delivered only after its key was tested <= (to == 0 ? last : to); beyond it the iteration stops')
         # ascending step
         steps = [n for n in g.all_nodes() if n.is_call and n.r.get('op') == '++' and itdecl is not None and n.obj is not None and q.refers_to_decl(n.obj, itdecl) or
                  (n.is_call and n.r.get('op') == '++' and itdecl is not None and n.args and q.refers_to_decl(n.args[0], itdecl))]
@@ -311,6 +338,9 @@ def run(ctx):
             ctx.check(len(g.args) >= 2 and g.args[1].strip(casts=True).value == 1, 'R18.3', fq + '#' + tag + '.flag', g.loc, 'GapFillFlag=Y')
             cust = c.args[2] if len(c.args) > 2 else None
             explicit = cust is not None and cust.k != 'CXXDefaultArgExpr'
+            if explicit:
+                from ..memo import _expand
+                cust = _expand(f, cust)          # a named const local stands for its initialiser
             from_counter = cust is not None and q.reads_member(cust, SEND_SEQ)
             from_ctx = cust is not None and (any(x.k == 'MemberExpr' and x.decl and x.decl.get('qp') in (RC + '_begin', RC + '_last') for x in cust.walk())
                                              or q.reads_local_of_field(cust, 7))
